@@ -671,6 +671,8 @@ impl RtrPerAddrMetrics {
     /// Returns the metrics data for the given address.
     fn get(&self, addr: IpAddr) -> Arc<RtrMetricsData> {
         // See if we have that address already.
+        #[cfg(routinator_verif)]
+        crate::verif::point("rtr.addrs.load1");
         let addrs = self.addrs.load();
         if let Ok(idx) = addrs.binary_search_by(|x| x.0.cmp(&addr)) {
             return addrs[idx].1.clone()
@@ -680,6 +682,8 @@ impl RtrPerAddrMetrics {
         let _write = self.write.lock();
 
         // Re-load self.addrs, it may have changed since.
+        #[cfg(routinator_verif)]
+        crate::verif::point("rtr.addrs.load2");
         let addrs = self.addrs.load();
         let idx = match addrs.binary_search_by(|x| x.0.cmp(&addr)) {
             Ok(idx) => return addrs[idx].1.clone(),
@@ -693,6 +697,8 @@ impl RtrPerAddrMetrics {
         new_addrs.push((addr, Default::default()));
         new_addrs.extend_from_slice(&addrs[idx..]);
         let res = new_addrs[idx].1.clone();
+        #[cfg(routinator_verif)]
+        crate::verif::point("rtr.addrs.store");
         self.addrs.store(new_addrs.into());
         res
     }
